@@ -349,6 +349,24 @@ func Generate(seed uint64, prop, tier string) *Plan {
 			}
 			up.Ops = append(up.Ops, op)
 		}
+		if asyncHeavy && r.Chance(1, 6) {
+			// a burst of tiny requests on one connection: more pending requests than
+			// the loop takes per round / than the urgent queue's threshold (build
+			// flavour +small: 3 per round, threshold 8)
+			conn, at := r.Intn(nconn), r.Intn(len(up.Ops)+1)
+			var burst []UserOp
+			for b := r.Range(6, 40); b > 0; b-- {
+				op := UserOp{Conn: conn, K: "asyncwrite", N: r.Pick(1, 1, 2, 10)}
+				switch r.Intn(8) {
+				case 0:
+					op.K, op.N = "wake", 0
+				case 1:
+					op.K, op.N = "execute", 0
+				}
+				burst = append(burst, op)
+			}
+			up.Ops = append(up.Ops[:at], append(burst, up.Ops[at:]...)...)
+		}
 		p.Users = append(p.Users, up)
 	}
 	// control API and client-side connections
